@@ -18,37 +18,6 @@ From Symv Require Import Gen.SchemaSc Gen.SchemaNc Gen.OutlineSc Gen.OutlineNc.
 Import ListNotations.
 Open Scope list_scope.
 
-(* ---------- per-artefact kernel obligations (regenerated terms on both sides) ---------- *)
-
-(* every class, base, SIZE, enum member and value, constant, TYPE_HINTS key and hint, method (decorator, name, result annotation),
-   factory, mapping entry and create_by_name key of the checked-in module, in order, is what the model yields for the schema *)
-Theorem sc_module_outline_partial : outline sc_schema = sc_outline_actual.
-Proof. vm_compute. reflexivity. Qed.
-Print Assumptions sc_module_outline_partial.
-
-Theorem nc_module_outline_partial : outline nc_schema = nc_outline_actual.
-Proof. vm_compute. reflexivity. Qed.
-Print Assumptions nc_module_outline_partial.
-
-(* constants of the generator that the model / the extractor rely on in a fixed spelling *)
-Theorem generator_constants_as_modelled :
-  camel_case_pattern = "(?<!^)(?=[A-Z])"%string /\ pod_size_assign = "SIZE = "%string
-  /\ hints_base_open = "**"%string /\ hints_base_close = ".TYPE_HINTS"%string
-  /\ ~ In "?"%string (map (fun s => substring 0 1 s) (method_order ++ factory_method_order)).
-Proof. vm_compute. repeat split; try reflexivity. intro H. repeat (destruct H as [H|H]; [discriminate H|]). exact H. Qed.
-Print Assumptions generator_constants_as_modelled.
-
-(* the shipped schemas satisfy the premises of the generic theorems below *)
-Theorem shipped_schemas_premises :
-  no_empty_factory sc_schema /\ no_empty_factory nc_schema
-  /\ (exists m, build_factory_map sc_schema = Ok m) /\ (exists m, build_factory_map nc_schema = Ok m).
-Proof.
-  split; [apply no_empty_factoryb_spec; vm_compute; reflexivity|]. split; [apply no_empty_factoryb_spec; vm_compute; reflexivity|].
-  split; [destruct (build_factory_map sc_schema) as [m| |k] eqn:E | destruct (build_factory_map nc_schema) as [m| |k] eqn:E];
-    try (exists m; reflexivity); vm_compute in E; discriminate E.
-Qed.
-Print Assumptions shipped_schemas_premises.
-
 (* ---------- generic theorems: all declaration lists ---------- *)
 
 (* one class per declaration, same names, same order (an expanded schema holds no inline struct: AstPostProcessor.type_descriptors
@@ -118,3 +87,36 @@ Example example_outline_shape :
   /\ map (fun f => map snd (fo_entries f)) (factory_entries (outline example_schema))
      = [["Circle"%string; "Square"%string]; ["Click"%string; "Scroll"%string]].
 Proof. exact OutlineProofs.example_outline_shape. Qed.
+
+(* ---------- per-artefact kernel obligations (regenerated terms on both sides) ----------
+   Closed through the boolean equality outline_eqb (sound for Leibniz equality, OutlineProofs.outline_eqb_sound) so that an obligation
+   that does not hold fails at once with `false = true`; the statements are plain equalities. *)
+
+(* constants of the generator that the model / the extractor rely on in a fixed spelling *)
+Theorem generator_constants_as_modelled :
+  camel_case_pattern = "(?<!^)(?=[A-Z])"%string /\ pod_size_assign = "SIZE = "%string
+  /\ hints_base_open = "**"%string /\ hints_base_close = ".TYPE_HINTS"%string
+  /\ ~ In "?"%string (map (fun s => substring 0 1 s) (method_order ++ factory_method_order)).
+Proof. vm_compute. repeat split; try reflexivity. intro H. repeat (destruct H as [H|H]; [discriminate H|]). exact H. Qed.
+Print Assumptions generator_constants_as_modelled.
+
+(* the shipped schemas satisfy the premises of the generic theorems above *)
+Theorem shipped_schemas_premises :
+  no_empty_factory sc_schema /\ no_empty_factory nc_schema
+  /\ (exists m, build_factory_map sc_schema = Ok m) /\ (exists m, build_factory_map nc_schema = Ok m).
+Proof.
+  split; [apply no_empty_factoryb_spec; vm_compute; reflexivity|]. split; [apply no_empty_factoryb_spec; vm_compute; reflexivity|].
+  split; [destruct (build_factory_map sc_schema) as [m| |k] eqn:E | destruct (build_factory_map nc_schema) as [m| |k] eqn:E];
+    try (exists m; reflexivity); vm_compute in E; discriminate E.
+Qed.
+Print Assumptions shipped_schemas_premises.
+
+(* every class, base, SIZE, enum member and value, constant, TYPE_HINTS key and hint, method (decorator, name, result annotation),
+   factory, mapping entry and create_by_name key of the checked-in module, in order, is what the model yields for the schema *)
+Theorem sc_module_outline_partial : outline sc_schema = sc_outline_actual.
+Proof. apply outline_eqb_sound. vm_compute. reflexivity. Qed.
+Print Assumptions sc_module_outline_partial.
+
+Theorem nc_module_outline_partial : outline nc_schema = nc_outline_actual.
+Proof. apply outline_eqb_sound. vm_compute. reflexivity. Qed.
+Print Assumptions nc_module_outline_partial.
